@@ -914,6 +914,15 @@ pub fn t_prepaid_closes(p: P) -> impl Fn() {
         p.prefix_mode();
         let l = Uint128::new(10 * d);
         let u = 18 + (p.seed % 5) as u128;
+        // a healthy bystander on the other side at 1x (plenty of free collateral): she withdraws
+        // later, when the vault has been drained by the others' profitable closes
+        {
+            let mg = Uint128::new(20 * d);
+            let l1 = Uint128::new(d);
+            let f = funds_for(&r, &p, mg, l1);
+            r.step(Op::Open { who: EVE, side: opp(&p.side), margin: mg, lev: l1, limit: Uint128::zero(), funds: f });
+            r.w.next_block(15);
+        }
         for who in [ALICE, BOB, CAROL] {
             let mg = Uint128::new(u * d);
             let f = funds_for(&r, &p, mg, l);
@@ -927,6 +936,8 @@ pub fn t_prepaid_closes(p: P) -> impl Fn() {
         r.w.next_block(15);
         r.step(Op::Close { who: BOB, limit: Uint128::zero() });
         r.w.next_block(15);
+        let a0 = amount("wd0", d, false, 4);
+        r.step(Op::Withdraw { who: EVE, amount: a0 });
         let a = amount("wd", d, false, 1);
         r.step(Op::Withdraw { who: CAROL, amount: a });
         r.step(Op::Close { who: CAROL, limit: Uint128::zero() });
